@@ -27,7 +27,7 @@ class Obs:
 
 
 def gen_case(rng, tier, *, semi=False, metrics=None, force_tie_free=False, allow_pre=True, nq=None, gclasses=None,
-             max_n=None):
+             max_n=None, extra_kinds=()):
     n = gen.sizes(rng, tier, lo=2, quick_hi=40, thorough_hi=110)
     if max_n:
         n = min(n, max_n)
@@ -72,6 +72,8 @@ def gen_case(rng, tier, *, semi=False, metrics=None, force_tie_free=False, allow
     if rng.random() < 0.1:
         # class identifiers need not be 0..K-1 for the (semi-)supervised models: an injective relabelling to arbitrary integers
         ids = rng.choice(50, size=int(Y.max()) + 1, replace=False)
+        if rng.random() < 0.5:
+            ids = rng.choice(np.arange(257, 100000), size=int(Y.max()) + 1, replace=False)     # beyond CPython's small-int cache
         Y = ids[Y]
     case = {"model": "semi" if semi else "supervised", "metric": metric, "gclass": gc, "pattern": pattern,
             "X": Xl.tolist(), "Y": [int(v) for v in Y], "U": U.tolist(), "Q": Q.tolist(), "pre": None, "prefit": None,
@@ -81,9 +83,13 @@ def gen_case(rng, tier, *, semi=False, metrics=None, force_tie_free=False, allow
         P = gen.to_domain(gen.make_dataset(rng, n + nU, d, "G1"), kind)
         case["prefit"] = {"X": P[:n].tolist(), "Y": gen.make_labels(rng, P[:n], "random").tolist(), "U": P[n:].tolist(),
                           "inplace": bool(rng.random() < 0.5)}
+    if gc == "G2" and rng.random() < 0.3 and metric in gen.SAFE_METRICS:
+        case["int_features"] = True          # the lattice handed over as an int64 matrix (queries stay float)
+    if rng.random() < 0.08:
+        case["I_onthefly"] = [int(v) for v in rng.integers(0, max(2, n // 2), size=n)]   # identifiers (with repeats) beside a feature metric
     if allow_pre and rng.random() < 0.25:
-        mk = gen.pick(rng, ["M1", "M2", "M3", "M4", "ONES"]) if not force_tie_free else gen.pick(rng, ["M1", "M2"])
-        extra = int(rng.integers(1, 8))
+        mk = gen.pick(rng, ["M1", "M2", "M3", "M4", "ONES", "MN", "MN", "MB"] + list(extra_kinds)) if not force_tie_free else gen.pick(rng, ["M1", "M2", "MN", "MN", "MN"])
+        extra = int(rng.integers(0, 8))
         N = n + nU + extra
         D = gen.make_matrix(rng, N, mk)
         if semi:
@@ -99,6 +105,12 @@ def gen_case(rng, tier, *, semi=False, metrics=None, force_tie_free=False, allow
         case["X"] = [[float(i)] for i in case["pre"]["I"]]
         case["U"] = [[float(n + j)] for j in range(nU)]
         case["Q"] = [[float(i)] for i in case["pre"]["IQ"]]
+        case.pop("int_features", None)
+        case.pop("I_onthefly", None)
+        if rng.random() < 0.08 and not semi:
+            # the object is built from the matrix file but the switch is turned off before fitting: the feature metric must be used
+            case["pre_switched_off"] = True
+            case["X"], case["Q"] = Xl.tolist(), Q.tolist()
     return case
 
 
@@ -118,10 +130,15 @@ def run_case(case, with_prim_hook=True, with_heap_hooks=True):
     finally:
         shutil.rmtree(tmp, ignore_errors=True)
     o.X = np.array(case["X"], dtype=float)
+    if case.get("int_features"):
+        o.X = o.X.astype(np.int64)
+    if case.get("pre_switched_off"):
+        o.model.pre_computed_distance = False
+        pre = None
     o.Y = np.array(case["Y"], dtype=int)
     o.U = np.array(case["U"], dtype=float).reshape(-1, o.X.shape[1]) if len(case.get("U") or []) else np.zeros((0, o.X.shape[1]))
     o.Q = np.array(case["Q"], dtype=float).reshape(-1, o.X.shape[1])
-    o.I = np.array(pre["I"], dtype=int) if pre else None
+    o.I = np.array(pre["I"], dtype=int) if pre else (np.array(case["I_onthefly"], dtype=int) if case.get("I_onthefly") else None)
     o.IQ = np.array(pre["IQ"], dtype=int) if pre else None
     o.L = len(o.X)
     rec = hooks.Recorder()
